@@ -77,6 +77,8 @@ def detect(seed, checks):
             viol = [l for l in out.splitlines() if l.startswith("VIOLATION")]
             results[c] = {"rc": rc, "violations": len(viol), "first": viol[0][:300] if viol else "",
                           "wall_s": round(time.time() - t0, 1),
+                          "spec_deviations": [l.split(" occurrences")[0].replace("SPEC-DEVIATION ", "")
+                                              for l in out.splitlines() if l.startswith("SPEC-DEVIATION")],
                           "tool_error": [l[:300] for l in out.splitlines() if l.startswith("TOOL-ERROR")][:1]}
             print(c, json.dumps(results[c]))
     finally:
